@@ -548,6 +548,7 @@ impl<'a> Search<'a> {
             loops.push(FOp::Flush);
         }
         let mut extending: Vec<FOp> = vec![];
+        let mut changed_loops: Vec<FOp> = vec![];
         for (wi, w) in self.writes.iter().enumerate() {
             if let Some(op) = concretize(w, &r, self.cfg, h.len(), wi) {
                 if w.step < 0 {
@@ -565,7 +566,13 @@ impl<'a> Search<'a> {
         }
         for op in loops {
             let mut issues = vec![];
+            let before_loop = dbg(&m);
             let res = guarded(|| step(&mut m, &mut r, self.cfg, &op, &mut issues));
+            if res.is_ok() && dbg(&m) != before_loop && !matches!(op, FOp::Init) {
+                // an operation that must not change the state did change it: besides reporting
+                // that (inside step), explore the state it leads to like any other transition
+                changed_loops.push(op.clone());
+            }
             t.transitions += 1;
             t.evaluations += 1;
             h.push(op);
@@ -597,6 +604,7 @@ impl<'a> Search<'a> {
             return;
         }
         drop(m);
+        extending.extend(changed_loops);
         for op in extending {
             // fresh object: replay the history, then take the transition under test
             let res = guarded(|| {
